@@ -47,6 +47,6 @@ MANIFEST = {
             "exact oracle written in Lean (expected areas from |A|, |B| and the exact |A∩B|, membership at sample points off the input edges, ring direction and "
             "closedness, unary_union vs fold, clip pieces / coverage / length conservation).",
     "note": "Trusted: Lean kernel + audited axioms; the harness/generators (sampling); the engine assumption EngineSpec (validated numerically every run, not proved); "
-            "S2 (Jordan). Hook commit 15d2f300 (feature verif-hooks: glue functions + raw engine probes). Defect found and repaired: repeated closing vertex "
-            "halves the area (F5, fix bb1c08a6).",
+            "S2 (Jordan). Hook commit a034e536 (feature verif-hooks: glue functions + raw engine probes). Defect found and repaired: repeated closing vertex "
+            "halves the area (F5, fix e438f046).",
 }
